@@ -120,8 +120,8 @@ def instantiations(tier, seed):
     for k, (sk, how) in enumerate(routed):
         names = F.ALT_NAMES[(k + seed) % len(F.ALT_NAMES)]
         m = F.rename(F.symbolize(sk), names)
-        if how == "json":
-            m = _strip_sign(m)
+        if how == "json" and k % 2 == 0:
+            m = _strip_sign(m)        # the other half keeps the explicit "sign" key in the JSON (any value/sign combination)
         if how == "ctor-str":
             for c in pl.compounds(m):
                 for ch in c["ch"]:
